@@ -123,3 +123,14 @@ Proof.
        assert (Hst : i_stage s = STAGE_PONG) by (unfold STAGE_PING, STAGE_PONG, STAGE_PENG in *; lia);
        apply Hinv in Hst; congruence.
 Qed.
+
+(* C04/C05: the two ends of a handshake compare the same two salted hashes in opposite order, so
+   they take opposite halves of the nonce space unless both (salt, node id) pairs coincide — which
+   handle_init rejects as a connection to self *)
+Lemma hash_gt_opposite : forall s1 n1 s2 n2, (s1 <> s2 \/ n1 <> n2) ->
+  hash_gt s1 n1 s2 n2 = negb (hash_gt s2 n2 s1 n1).
+Proof.
+  intros s1 n1 s2 n2 H. unfold hash_gt.
+  destruct (s2 <? s1) eqn:A, (s1 <? s2) eqn:B, (s1 =? s2) eqn:C, (s2 =? s1) eqn:D, (n2 <? n1) eqn:E, (n1 <? n2) eqn:F;
+    cbn; try reflexivity; exfalso; lia.
+Qed.
